@@ -241,6 +241,19 @@ class Interp:
             t = self.ctx.branch(t)
         return self.eval(node.body if t else node.orelse, fr)
 
+    def e_Yield(self, node, fr):
+        """generator functions are executed eagerly: the function is identified with the SEQUENCE of values it yields
+        (`__yielded__` in its frame, a python list or, under a loop invariant, a list of symbolic length)"""
+        out = fr.locals.get('__yielded__')
+        if out is None:
+            raise Unsupported('yield outside an eagerly executed generator')
+        v = self.eval(node.value, fr) if node.value is not None else None
+        if isinstance(out, SymList):
+            out.append(v)
+        else:
+            out.append(v)
+        return None
+
     def e_Lambda(self, node, fr):
         return Func(fr.module, '<lambda>', node, closure=fr)
 
@@ -732,6 +745,11 @@ class Interp:
         used for universally quantified clauses) or 'assume' (hypotheses: z3.ForAll)."""
         ctx = self.ctx
         n = inv.trips(self, it)
+        # range(k) with k < 0 (and any empty iterable) runs zero times: the trip count is max(k, 0)
+        if is_sym(n):
+            n = simp(z3.If(to_z3(n) < 0, z3.IntVal(0), to_z3(n)))
+        elif isinstance(n, int) and n < 0:
+            n = 0
         inv.mode = 'prove'
         for nm, g in inv.inv(self, fr, 0, it):
             ctx.oblige('loop%d.init.%s' % (inv.ordinal, nm), g, kind='invariant')
@@ -760,7 +778,6 @@ class Interp:
             raise Abort()
         else:
             inv.havoc(self, fr, n, it)
-            ctx.assume(n >= 0)
             inv.mode = 'assume'
             for nm, g in inv.inv(self, fr, n, it):
                 ctx.assume(g)
@@ -886,7 +903,18 @@ class Interp:
             return self.eval(node.body, fr)
         fr.local_names = _assigned_names(node)
         if _has_yield(node):
-            return self.lib.run_generator(fn, fr)
+            if fn.full != self.opts.get('verifying') and fn.full not in self.opts.get('eager_generators', ()):
+                return self.lib.run_generator(fn, fr)
+            # the generator under verification: run to completion, the result is the list of yielded values
+            fr.locals['__yielded__'] = []
+            self.depth += 1
+            try:
+                self.exec_block(node.body, fr)
+            except ReturnSig:
+                pass
+            finally:
+                self.depth -= 1
+            return fr.locals['__yielded__']
         self.depth += 1
         if self.depth > 40:
             raise Unsupported('call depth')
